@@ -220,3 +220,32 @@ func VerifC19Errors() {
 	}
 	vCover("c19-errors-end")
 }
+
+// VerifC19CloseDuringSend: a buffered send has been accepted; Close is called from another
+// goroutine while a second sender is in the middle of its Send. Whatever the interleaving,
+// the packet accepted earlier is delivered before the carrier is closed.
+func VerifC19CloseDuringSend() {
+	car := newVCarrier(false)
+	conn := NewBaseConn(car)
+	conn.SetMaxWriteDelay(time.Hour)
+	vAssert(conn.Send(&packet.Puback{ID: 1}, true) == nil, "buffered send accepted")
+	done := make(chan int, 2)
+	go func() {
+		conn.Send(&packet.Puback{ID: 2}, vBool("asyncB"))
+		done <- 1
+	}()
+	var cerr error
+	go func() {
+		cerr = conn.Close()
+		done <- 2
+	}()
+	<-done
+	<-done
+	_ = cerr
+	log := car.snapshot()
+	vAssert(car.closed, "carrier closed")
+	vAssert(car.logAtClose >= 4, "the packet accepted by the earlier buffered send is written before the carrier is closed")
+	vAssert(len(log) >= 4 && log[0] == 0x40 && log[1] == 2 && log[2] == 0 && log[3] == 1, "and it is the first packet on the wire, intact")
+	vAssert(len(log)%4 == 0, "only whole packets reach the wire")
+	vCover("c19-closeduringsend-end")
+}
